@@ -3,5 +3,5 @@ import GapicModel.Regex.Match
 import GapicModel.Lemmas.Regex
 import GapicModel.Bridge.All
 import GapicModel.Driver
-import GapicModel.Props.C19
 import GapicModel.Props.C07
+import GapicModel.Props.C19
